@@ -126,6 +126,8 @@ SPECS += [
     FuncSpec('write_bignum_head', E, r'void write_bignum\(bigint& n\)', count=1, csig='void write_bignum_head(void)', contract=BIGNUM_CONTRACT,
              rules=[# program slice: the bigint part (sign handling, write_bytes_be) is not under contract; what is verified is the head written for its byte length
                     (r'\A.*?std::size_t length = data\.size\(\);', 'bool is_neg = vx_is_neg; size_t length = vx_len;', 1),
+                    # dropped here: the stringref index bookkeeping of the same function, which is under contract in unit cbor_strref (write_bignum)
+                    (r'if \(pack_strings_ && length >= jsoncons::cbor::detail::min_length_for_stringref\(next_stringref_\)\)\s*\{\s*\+\+next_stringref_;\s*\}', '', 1),
                     (r'write_tag\((2|3)\);', r'vx_write_tag(\1);', 2),
                     (r'static_cast<uint(8|16|32|64)_t>\(0x(4|5)([0-9a-b]) \+ length\)', r'(uint\1_t)(0x\2\3 + length)', 1),
                     (r'binary::native_to_big\(static_cast<uint8_t>\(([^,]+?)\),\s*std::back_inserter\(sink_\)\)', r'vx_sink_push((uint8_t)(\1))', 5),
